@@ -44,6 +44,21 @@ SUB4 = [["0", "1", "1*a", "1*b"], ["0", "1", "2", "1*a"], ["0", "1", "1*a", "2*a
         ["0", "1/2", "1*a", "-1/3*b"]]
 
 
+# fixed cases: the matrices of tests/test_gaussian_elimination.py and a few corner cases
+FIXED = [
+    [["2", "1", "-1"], ["-3", "-1", "2"], ["-2", "1", "2"]],
+    [["2", "1", "-1", "5", "7"], ["-3", "-1", "2", "1", "0"], ["-2", "1", "2", "-2", "6"]],
+    [["1*a", "1*b", "1*c", "0", "1*b"], ["0", "1*d", "0", "0", "1*d"], ["0", "1*e", "0", "0", "1*e"],
+     ["0", "0", "1*f", "1*g", "0"], ["0", "0", "1*f", "1*g", "0"]],
+    [["1*a", "1*b", "0", "0"], ["0", "1*b", "1*c", "0"], ["1*a", "0", "0", "1*d"], ["0", "0", "1*c", "1*d"]],
+    [["0"]], [["0", "0"], ["0", "0"]], [["0", "0"], ["0", "0"], ["0", "0"]], [["1*a"]], [["5/7"]],
+    [["1*a", "1*b"], ["2*a", "2*b"]], [["1*a", "2*a"], ["1*b", "2*b"]], [["1", "1*a"], ["1*a", "1"]],
+    [["1", "2", "3"], ["4", "5", "6"], ["7", "8", "9"]],
+    [["0", "0", "1"], ["0", "1*a", "0"], ["1*b", "0", "0"]],
+    [["1*a", "1*b", "1*c"], ["1*b", "1*c", "1*a"], ["1*c", "1*a", "1*b"]],
+    [["0", "1", "2", "3", "4", "5"]], [["0"], ["1"], ["2"], ["1*a"], ["2*a"], ["0"]],
+]
+
 # ------------------------------------------------------------------------------------------
 # entries
 # ------------------------------------------------------------------------------------------
@@ -128,8 +143,40 @@ def _rows(f, M):
 
 
 def enc_result(res):
+    """verbose flat-integer encoding = enc_result in SGE/Model.v"""
     L, M, R = res
     return _rows(_q, L) + _rows(_e, M) + _rows(_q, R)
+
+
+def _qs(x):
+    n, d = _q(x)
+    return str(n) if d == 1 else f"{n}/{d}"
+
+
+def _es(x):
+    if isinstance(x, tuple):
+        if len(x) != 2 or not isinstance(x[1], str) or x[1] not in SYMS:
+            raise BadType(f"entry {x!r}")
+        return f"{_qs(x[0])}*{SYMS.index(x[1])}"
+    return _qs(x)
+
+
+def out_result(res):
+    """compact encoding = out_result in SGE/Model.v: "p m' n' q" + entries of L, M', R."""
+    L, M, R = res
+    for X in (L, M, R):
+        if not isinstance(X, list) or not all(isinstance(r, list) for r in X):
+            raise BadType("not a list of rows")
+    p, mp = len(L), len(M)
+    np_ = len(M[0]) if M else 0
+    q = len(R[0]) if R else 0
+    if all(len(r) == mp for r in L) and all(len(r) == np_ for r in M) and len(R) == np_ and all(len(r) == q for r in R):
+        toks = [str(p), str(mp), str(np_), str(q)]
+        toks += [_qs(x) for r in L for x in r]
+        toks += [_es(x) for r in M for x in r]
+        toks += [_qs(x) for r in R for x in r]
+        return " ".join(toks)
+    return "-2 " + " ".join(map(str, enc_result(res)))
 
 
 def enc_str(ints):
@@ -139,27 +186,27 @@ def enc_str(ints):
 def dec_result(s):
     """Readable form of an encoding string (for messages)."""
     try:
-        xs = [int(t) for t in s.split()]
-        if xs == [-1]:
+        toks = s.split()
+        if toks == ["-1"]:
             return "None"
-        pos = [0]
+        if toks[0] == "-2":
+            return "ragged result " + s
+        p, mp, np_, q = map(int, toks[:4])
+        pos = [4]
 
-        def rows(w):
-            n = xs[pos[0]]; pos[0] += 1
+        def ent(t):
+            if "*" in t:
+                a, b = t.split("*")
+                return f"{a}*{SYMS[int(b)]}"
+            return t
+
+        def rows(nr, nc):
             out = []
-            for _ in range(n):
-                ln = xs[pos[0]]; pos[0] += 1
-                row = []
-                for _ in range(ln):
-                    ch = xs[pos[0]:pos[0] + w]; pos[0] += w
-                    if w == 2:
-                        row.append(str(Fraction(ch[0], ch[1])))
-                    else:
-                        q = str(Fraction(ch[1], ch[2]))
-                        row.append(q if ch[0] == 0 else f"{q}*{SYMS[ch[3]]}")
-                out.append(row)
+            for _ in range(nr):
+                out.append([ent(t) for t in toks[pos[0]:pos[0] + nc]])
+                pos[0] += nc
             return out
-        L = rows(2); M = rows(4); R = rows(2)
+        L = rows(p, mp); M = rows(mp, np_); R = rows(np_, q)
         return f"L={L} M'={M} R={R}"
     except Exception:  # noqa
         return s
@@ -265,7 +312,7 @@ def run_case(case):
             encs.append("EXC " + type(res).__name__ + ": " + str(res)[:80])
         else:
             try:
-                encs.append(enc_str(enc_result(res)))
+                encs.append(out_result(res))
             except BadType as e:
                 encs.append("BADTYPE " + str(e))
             except Exception as e:  # noqa
@@ -305,8 +352,8 @@ def parse_ostr_list(body):
     body = _PAREN.sub("", body)
     if body == "":
         return []
-    body = body.replace("OE", "").replace("Mi", "-").replace("K", "")
-    body = _XD.sub(r"\1 ", body)
+    body = body.replace("OE", "").replace("Mi", "-").replace("K", "").replace("Sl", "/").replace("St", "*")
+    body = _XD.sub(r"\1 ", body).replace(" /", "/").replace(" *", "*")
     return [x.strip() for x in body.split(";")]
 
 
@@ -347,14 +394,17 @@ def _coq_eval_ostr(ctx, exprs, per_file, timeout=900, jobs=14):
         while pending and len(running) < jobs:
             k = pending.pop(0)
             f = paths[k]
-            running[k] = subprocess.Popen(["timeout", str(timeout), "coqc", "-Q", str(lib.THEORIES), "PTN", "-o",
-                                           str(f.with_suffix(".vo")), str(f)],
-                                          stdout=subprocess.PIPE, stderr=subprocess.PIPE, text=True)
+            # output goes to files: a pipe would fill up (outputs are megabytes) and block coqc
+            fo = open(f.with_suffix(".out"), "w")
+            fe = open(f.with_suffix(".err"), "w")
+            running[k] = (subprocess.Popen(["timeout", str(timeout), "coqc", "-Q", str(lib.THEORIES), "PTN", "-o",
+                                            str(f.with_suffix(".vo")), str(f)], stdout=fo, stderr=fe), fo, fe)
         done = []
-        for k, p in running.items():
+        for k, (p, fo, fe) in running.items():
             if p.poll() is not None:
-                out, err = p.communicate()
-                results[k] = (p.returncode, out, err)
+                fo.close()
+                fe.close()
+                results[k] = (p.returncode, paths[k].with_suffix(".out").read_text(), paths[k].with_suffix(".err").read_text())
                 done.append(k)
         for k in done:
             del running[k]
@@ -477,6 +527,7 @@ class C13(Prop):
         rot = ctx.seed if stream == "main" else ctx.seed + 1 + rng.randrange(3)
         if stream == "main":
             cases.append({"kind": "malformed", "rows": []})
+            cases += [{"kind": "mat", "rows": rows} for rows in FIXED]
             for (r, c) in [(1, 1), (1, 2), (2, 1), (2, 2), (1, 3), (3, 1)]:
                 cases += self._blocks(FULL, r, c, 729)
         sub5 = SUB5[rot % len(SUB5)]
